@@ -286,8 +286,9 @@ var summaryEncoding = map[string]Summary{
 	},
 	// func NewDecoder(r io.Reader) *Decoder
 	"encoding/json.NewDecoder": SingleVarArgPropagation,
+	// func (dec *Decoder) Decode(v any) error: the decoded input flows from the decoder into v
 	"(*encoding/json.Decoder).Decode": {
-		[][]int{{0}, {0, 1}},
+		[][]int{{0, 1}, {0, 1}},
 		[][]int{{0}, {0}},
 	},
 	"(*encoding/json.Decoder).UseNumber": {
